@@ -87,7 +87,17 @@ def build(seed: int, pid: str, ncfg: int) -> Tuple[Dict[str, Any], List[Dict[str
                         sd = [x for x in hexref.SIDES if {b["corners"][c] for c in hexref.SIDE_CORNERS[x]} == common][0]
                         pats[(b["name"], sd)] = nm_
         geo["patches"] = [(bn, sd, nm_) for (bn, sd), nm_ in sorted(pats.items())]
-        geo["merges"] = [pr.pick([("ifa", "ifb"), ("ifb", "ifa"), ("walls", "ifa")])]
+        # (one pair, or two pairs with two different slave patches: a corner may then lie on both)
+        geo["merges"] = pr.pick([[("ifa", "ifb")], [("ifb", "ifa")], [("walls", "ifa")], [("ifa", "ifb"), ("ifa", "walls")], [("walls", "ifb"), ("walls", "ifa")],
+                                 [("ifa", "ifb"), ("ifa", "walls")]])
+        if len(geo["merges"]) == 2:
+            # more of the sides carry one of the two slave names, also on blocks that share corners
+            sl = [s_ for (_, s_) in geo["merges"]]
+            for b in geo["blocks"]:
+                for sd in hexref.SIDES:
+                    if (b["name"], sd) not in pats and pr.chance(0.3):
+                        pats[(b["name"], sd)] = pr.pick(sl)
+            geo["patches"] = [(bn, sd, nm_) for (bn, sd), nm_ in sorted(pats.items())]
     if rs.chance(opts.get("p_rewrite", 0.3)):
         # the same assembled mesh is written a second time: as it is (C02: same file again), or after
         # 1-3 vertex moves (C01: still consistent; C04: sizes realised on the new lengths)
